@@ -146,6 +146,8 @@ def oracle_direct(m):
         return None
     if m['fn'] == 'escape_str_for_quote':
         try:
+            # as in the run that disagreed: the other quote was asked for first (anything remembered between calls must not leak)
+            P.escape_str_for_quote("'" if m['quote'] == '"' else '"', s)
             e = P.escape_str_for_quote(m['quote'], s)
             lit = ('b' if isinstance(s, bytes) else '') + m['quote'] + e + m['quote']
             if eval(lit) != s:
@@ -286,6 +288,8 @@ def strings_section(tier, seed):
     longs = ['a' * 30, 'aaa bbb ccc ddd eee fff ggg', "it's a \"quoted\" thing, with\\backslash", 'x' * 11, 'hello world', '',
              'caf\xe9 中文 \x00\n', 'a-b-c-d-e-f-g-h-i-j-k-l', b'abc def ghi jkl mno', b'', b"\xff\x00'\"", b'x' * 25,
              'he comes z' + '\u0301' * 12 + 'algo', 'a' + '\u0308\u0301' * 9 + ' b', 'e\u0301 e\u0301 e\u0301 e\u0301 e\u0301 e\u0301']
+    # more than a thousand pieces at narrow widths (no limit applies to the pieces of a string)
+    longs += ['ab cd ' * 2200] if tier == 'quick' else ['ab cd ' * 2200, b'xy z ' * 2500, 'q' * 9000]
     for _ in range(60 if tier == 'quick' else 600):
         k = rng.choice([8, 11, 14, 20, 33, 50])
         longs.append(''.join(rng.choice(cpool) for _ in range(k)))
